@@ -1279,15 +1279,19 @@ where
             });
         }
 
-        // Constant fold: when every coefficient is a Const, build the recomposed EF value
-        // directly and skip the NPO row (or the D mul_add chain). The coefficient Const ops
-        // remain in the witness table for any other consumers.
+        // Constant fold: when every coefficient is a base-embedded Const, build the recomposed
+        // EF value directly and skip the NPO row (or the D mul_add chain). The coefficient
+        // Const ops remain in the witness table for any other consumers.
+        //
+        // A constant with higher basis components is not folded: the chain below multiplies
+        // the whole element by the basis vector, and the fold must compute the same value.
         let bf_consts: Option<Vec<BF>> = coeffs
             .iter()
             .map(|&c| {
-                self.expr_builder
-                    .get_const_value(c)
-                    .map(|ef| <F as BasedVectorSpace<BF>>::as_basis_coefficients_slice(&ef)[0])
+                self.expr_builder.get_const_value(c).and_then(|ef| {
+                    let c0 = <F as BasedVectorSpace<BF>>::as_basis_coefficients_slice(&ef)[0];
+                    (F::from(c0) == ef).then_some(c0)
+                })
             })
             .collect();
         if let Some(bf_values) = bf_consts {
